@@ -1002,15 +1002,30 @@ class FX:
         tb, te = self._terminal(st.body), (bool(st.orelse) and self._terminal(st.orelse))
         b_env, b_attr = dict(env), dict(self.attr)
         cnode = self.canon(st.test, snap_env)
-        self._merge(env, a_env, b_env, tb, te, is_attr=False, cond=cnode, snap=snap_env)
-        self._merge(self.attr, a_attr, b_attr, tb, te, is_attr=True, cond=cnode)
+        self._merge(env, a_env, b_env, tb, te, is_attr=False, cond=cnode, snap=snap_env, pgs=(pg_t, pg_f))
+        self._merge(self.attr, a_attr, b_attr, tb, te, is_attr=True, cond=cnode, pgs=(pg_t, pg_f))
         if tb and not te:
             return None if self._raises(st.body) else pg_f
         if te and not tb:
             return None if self._raises(st.orelse) else pg_t
         return None
 
-    def _merge(self, out, a, b, ta, tb, is_attr, cond=None, snap=None):
+    def _stmt_union(self, va, vb, pgs):
+        """a statement-valued local bound differently on the two branches of a Python `if`: the list of both, each under its
+        branch condition (what `self.sync += If(c, update)` after the if adds)"""
+        out = []
+        for v, pg in ((va, pgs[0]), (vb, pgs[1])):
+            if v is None:
+                continue
+            full = list(self.pyguards) + [g for g in pg if g not in self.pyguards]
+            if isinstance(v, PyList):
+                for lp, ipg, x in v.items:
+                    out.append((list(lp), list(ipg) + [g for g in full if g not in ipg], x))
+            else:
+                out.append((list(self.loops), full, v))
+        return PyList(out)
+
+    def _merge(self, out, a, b, ta, tb, is_attr, cond=None, snap=None, pgs=None):
         out.clear()
         if ta and not tb:
             out.update(b)
@@ -1050,6 +1065,9 @@ class FX:
                                 return U().visit(copy.deepcopy(v))
                             self.localdefs[k] = ast.IfExp(test=copy.deepcopy(cond), body=unself(va), orelse=unself(vb))
                         out[k] = ast.Name(id=k, ctx=ast.Load())
+                elif pgs is not None and not is_attr and (isinstance(va, (Node, PyList)) or isinstance(vb, (Node, PyList))) and \
+                        all(v is None or isinstance(v, (Node, PyList)) for v in (va, vb)):
+                    out[k] = self._stmt_union(va, vb, pgs)
                 else:
                     out[k] = vb
 
@@ -1201,6 +1219,20 @@ class FX:
             return self._bind_loop(target, it.args[0], env)
         if isinstance(target, ast.Name):
             v = self._value(it, env) if isinstance(it, (ast.Name, ast.Attribute)) else None
+
+            def index_range(x):
+                # range(..), possibly wrapped / reordered: the loop variable is a plain index
+                if isinstance(x, ast.Call) and isinstance(x.func, ast.Name):
+                    if x.func.id == "range":
+                        return True
+                    if x.func.id in ("list", "reversed", "sorted", "tuple") and len(x.args) == 1:
+                        return index_range(x.args[0])
+                if isinstance(x, ast.IfExp):
+                    return index_range(x.body) and index_range(x.orelse)
+                return False
+            if isinstance(v, ast.AST) and index_range(v):
+                env[target.id] = sym(target.id)
+                return
             if isinstance(it, (ast.Name, ast.Attribute, ast.Subscript)):
                 env[target.id] = elem(it, sym("_" + target.id))
             else:
